@@ -47,7 +47,9 @@ listen_dep  yes      Only passive communication mode
 import nfc.clf
 from . import device
 
+import os
 import time
+import errno
 import struct
 import operator
 from functools import reduce
@@ -69,7 +71,7 @@ class Frame(object):
                 self._type = "ack"
             elif frame == bytearray(b"\x00\x00\xFF\xFF\xFF"):
                 self._type = "err"
-            elif frame[3:5] == bytearray(b"\xff\xff"):
+            elif frame[3:5] == bytearray(b"\xff\xff") and len(frame) >= 10:
                 self._type = "data"
             if self.type == "data":
                 length = struct.unpack("<H", bytes(frame[5:7]))[0]
@@ -921,8 +923,6 @@ class Device(device.Device):
             timeout_msec = max(min(int(timeout * 1000), 0xFFFF), 1)
         else:
             timeout_msec = 0
-        self.chipset.in_set_rf(target.brty_send, target.brty_recv)
-        self.chipset.in_set_protocol(self.chipset.in_set_protocol_defaults)
         in_set_protocol_settings = {}
         if target.brty_send.endswith('A'):
             in_set_protocol_settings['add_parity'] = 1
@@ -934,6 +934,9 @@ class Device(device.Device):
             in_set_protocol_settings['add_eof'] = 1
             in_set_protocol_settings['check_eof'] = 1
         try:
+            self.chipset.in_set_rf(target.brty_send, target.brty_recv)
+            self.chipset.in_set_protocol(
+                self.chipset.in_set_protocol_defaults)
             if ((target.brty == '106A' and target.sel_res and
                  target.sel_res[0] & 0x60 == 0x00)):
                 # Driver must check TT2 CRC to get ACK/NAK
@@ -942,12 +945,20 @@ class Device(device.Device):
                 return self._tt2_send_cmd_recv_rsp(data, timeout_msec)
             else:
                 self.chipset.in_set_protocol(**in_set_protocol_settings)
-                return self.chipset.in_comm_rf(data, timeout_msec)
+                data = self.chipset.in_comm_rf(data, timeout_msec)
         except CommunicationError as error:
             log.debug(error)
             if error == "RECEIVE_TIMEOUT_ERROR":
                 raise nfc.clf.TimeoutError
             raise nfc.clf.TransmissionError
+        except StatusError as error:
+            # a setup command was not accepted by the chipset
+            log.error(error)
+            raise IOError(errno.EIO, os.strerror(errno.EIO))
+        if data is None:
+            # no proper acknowledge or response frame from the chipset
+            raise IOError(errno.EIO, os.strerror(errno.EIO))
+        return data
 
     def _tt2_send_cmd_recv_rsp(self, data, timeout_msec):
         # The Type2Tag implementation needs to receive the Mifare
@@ -955,6 +966,9 @@ class Device(device.Device):
         # (indistinguishable from a real crc error). We thus had to
         # switch off the crc check and do it here.
         data = self.chipset.in_comm_rf(data, timeout_msec)
+        if data is None:
+            # no proper acknowledge or response frame from the chipset
+            raise IOError(errno.EIO, os.strerror(errno.EIO))
         if len(data) > 2 and self.check_crc_a(data) is False:
             raise nfc.clf.TransmissionError("crc_a check error")
         return data[:-2] if len(data) > 2 else data
